@@ -126,8 +126,13 @@ def setup_config(
     if "current" in config:
         curr = config["current"]
 
-        # if cstep and steps are equal, we stop here.
-        if curr.get("cstep") == curr.get("restarted_from", -1):
+        # if cstep and steps are equal, we stop here. No progress since the
+        # last restart alone is not a reason: that run may have been killed
+        # before it completed a step, or more steps may have been asked for.
+        if (
+            curr.get("cstep") == curr.get("restarted_from", -1)
+            and curr.get("cstep") >= config["simulation"]["steps"]
+        ):
             return None
 
         # set 'restarted_from'
